@@ -91,7 +91,7 @@ class Real:
         ls = text.split("\n")
         return ("ok", ls[1] if len(ls) > 1 else "", text)
 
-    def assembled(self, mk):
+    def assembled(self, mk, twin=None):
         """the same literal compiled with assembleConstants=True: used once (pushint / pushbytes) and used twice (constant
         block).  Returns [(form, line to decode as a push)]"""
         pt = self.pt
@@ -127,6 +127,13 @@ class Real:
                                 pt.Mode.Application, version=6, assembleConstants=True)
             for n in (12, 13):
                 out.append(("pool:%s" % site(t3, n)[0], site(t3, n)[1]))
+            if twin is not None:
+                # the same TEXT under the other constructor in one program (`byte "f()void"` is the text, `method "f()void"`
+                # its selector): each load must still push its own literal - in both orders
+                for order, first, second, n in (("literal-first", mk, twin, 0), ("twin-first", twin, mk, 1)):
+                    t4 = pt.compileTeal(pt.Seq(pt.Pop(first()), pt.Pop(second()), pt.Pop(first()), pt.Pop(second()), pt.Int(1)),
+                                        pt.Mode.Application, version=6, assembleConstants=True)
+                    out.append((f"same-text:{order}:%s" % site(t4, n)[0], site(t4, n)[1]))
         except Exception as ex:  # noqa: BLE001
             out.append(("error", type(ex).__name__ + ": " + str(ex)[:120]))
         return out
@@ -385,7 +392,7 @@ class Ctx:
 
 
 def case_literal(cx: Ctx, cls: str, replay: dict, mk, model_cmd, meaning, wellformed, sels=(), key_bad=None,
-                 key_accept=None):
+                 key_accept=None, twin=None):
     """One literal through real code, model and oracle.
     meaning: Python's own reading of the literal (bytes | int) or None when ill-formed
     wellformed: should the constructor accept?"""
@@ -416,7 +423,7 @@ def case_literal(cx: Ctx, cls: str, replay: dict, mk, model_cmd, meaning, wellfo
         if not oracle_failed and cx.assembled_budget > 0:
             # the same literal through createConstantBlocks (assembleConstants=True): pushint/pushbytes and block entry
             cx.assembled_budget -= 1
-            for form, ln in cx.real.assembled(mk):
+            for form, ln in cx.real.assembled(mk, twin):
                 cx.stats["assembled:" + form] = cx.stats.get("assembled:" + form, 0) + 1
                 d2 = cx.parseline(ln, sels) if form != "error" else ("error", ln)
                 if d2[0] == "error" or d2[1] != meaning:
@@ -487,8 +494,9 @@ def run_bytes_str(cx: Ctx, tier: str):
     fixed += [chr(c) for c in range(256)]
     N = 40000 if tier == "thorough" else 1500
     for s in fixed + [gen_string(r) for _ in range(N)]:
+        tw = (lambda s=s: pt.MethodSignature(s)) if (s and not any(c in s for c in '"\\\n\r')) else None
         case_literal(cx, "bytes/str", {"kind": "str", "text": s}, lambda s=s: pt.Bytes(s),
-                     "c13-bytes str " + th(s), s.encode("utf-8"), True)
+                     "c13-bytes str " + th(s), s.encode("utf-8"), True, twin=tw)
     # strings that cannot be encoded (lone surrogates): rejected at construction, by UnicodeEncodeError
     for s in ["\ud800", "a\udfffb", "\udc80"]:
         case_literal(cx, "bytes/str-surrogate", {"kind": "str", "text_repr": ascii(s), "expect_exc": "UnicodeEncodeError"},
@@ -686,7 +694,7 @@ def run_method(cx: Ctx, tier: str):
             continue
         # the driver is told the selector of the text the user wrote - and of nothing else
         case_literal(cx, "method" + ("" if plain else "/odd-text"), {"kind": "method", "text": sig},
-                     lambda sig=sig: pt.MethodSignature(sig), "c13-method " + th(sig), sel, True,
+                     lambda sig=sig: pt.MethodSignature(sig), "c13-method " + th(sig), sel, True, twin=(lambda sig=sig: pt.Bytes(sig)),
                      sels=[(sig.encode("utf-8"), sel)])
     case_literal(cx, "method-bad", {"kind": "method", "text": ""}, lambda: pt.MethodSignature(""), "c13-method -", None, False)
     for bad in [b"a()void", 3, None]:
